@@ -31,8 +31,12 @@ LETTERS = "ABCDEFGHIJKL"
 ROWSETS = [[1, 5, 10], [13, 14, 15], [2, 3, 9]]
 
 
+LENGTHS_T = [1, 2, 30, 31, 32, 33, 34, 40, 64]
+ROWSETS_T = ROWSETS + [[1, 3, 5, 7], [12, 13, 14, 15], [1, 2, 14, 15]]
+
+
 def bounds(tier):
-    return {"lengths": [0] + LENGTHS, "popon_rows_per_group": 3, "groups": 3, "rollup_rows": 4}
+    return {"lengths": [0] + (LENGTHS if tier == "quick" else LENGTHS_T), "popon_rows_per_group": 3 if tier == "quick" else 4, "groups": 3, "rollup_rows": 4}
 
 
 def row_words(row, text, d):
@@ -136,27 +140,38 @@ def mk(letter, n):
 
 def shards(tier, seed):
     sh = []
-    for rs in range(len(ROWSETS)):
+    rsets = ROWSETS if tier == "quick" else ROWSETS_T
+    for rs in range(len(rsets)):
         for d in (1, 2):
-            for k in (1, 2, 3):
-                sh.append({"k": "pop", "rowset": rs, "d": d, "nrows": k})
+            for k in range(1, len(rsets[rs]) + 1):
+                if tier == "thorough" and k == 4:
+                    for part in range(8):
+                        sh.append({"k": "pop", "rowset": rs, "d": d, "nrows": k, "tier": tier, "part": part, "nparts": 8})
+                else:
+                    sh.append({"k": "pop", "rowset": rs, "d": d, "nrows": k, "tier": tier})
     for depth in (2, 3, 4):
-        sh.append({"k": "roll", "depth": depth})
-    sh.append({"k": "paint"})
+        sh.append({"k": "roll", "depth": depth, "tier": tier})
+    sh.append({"k": "paint", "tier": tier})
     return sh
 
 
 def run_shard(d):
     acc = Acc()
     states = set()
+    tier = d.get("tier", "quick")
+    LENGTHS = globals()["LENGTHS"] if tier == "quick" else LENGTHS_T  # noqa: N806
+    ROWSETS = globals()["ROWSETS"] if tier == "quick" else ROWSETS_T  # noqa: N806
     if d["k"] == "pop":
         rows = ROWSETS[d["rowset"]][: d["nrows"]]
         dd = d["d"]
         followups = [None, [1], [33], [1, 40]]
-        for lens in itertools.product([0] + LENGTHS, repeat=len(rows)):
+        lens_list = list(itertools.product([0] + (LENGTHS if len(rows) < 4 else [1, 32, 33, 40]), repeat=len(rows)))
+        for li, lens in enumerate(lens_list):
+            if d.get("nparts") and li % d["nparts"] != d["part"]:
+                continue
             verdicts = set()
             for order in itertools.permutations(range(len(rows))):
-                if ROWSETS[d["rowset"]] == [13, 14, 15] and list(order) != sorted(order):
+                if ROWSETS[d["rowset"]] in ([13, 14, 15], [12, 13, 14, 15], [1, 2, 14, 15]) and list(order) != sorted(order):
                     continue  # adjacent rows are lines of one caption: top-down only (C05 domain)
                 for fu in followups:
                     for same_second in (True, False):
